@@ -372,7 +372,7 @@ Example C10_conc_example :
   let H := fun c : list N => match c with [7] => 1 | [8] => 2 | [9] => 3 | _ => 0 end in
   let id := fun (_ : nat) (l : list entry) => l in
   let s := runc H id src_inplace src_unlink_first true [Done (Push 3 [9] true)] init in
-  let c := sched id (start H s [CPush 1 [7] true; CPush 2 [8] true; CTag 3 5]) [0; 2; 0; 2; 0; 2; 0; 1; 2]%nat in
+  let c := sched id (start H s [CPush 1 [7] true; CPush 2 [8] true; CTag 3 5]) [0; 2; 0; 2; 2; 0; 2; 0; 1; 2]%nat in
   read_index (cfs c) = Some [(3, Some 5)] /\
   exists_file (cfs c) (FBlob 1) = true /\ exists_file (cfs c) (FBlob 2) = false /\
   cdigs c = [1; 3] /\ clock c = false.
@@ -446,7 +446,7 @@ Print Assumptions C10_conc_refuted_without_indexlock.
 (* the hypothesis is satisfiable *)
 Theorem C10_conc_phases_example :
   let ps := [PSeq [Done (Push 1 [5] true)];
-             PConc [CTag 1 10; CTag 1 11] [0; 0; 1; 1; 0; 0; 1; 1; 1; 1]%nat;
+             PConc [CTag 1 10; CTag 1 11] [0; 1; 0; 1; 0; 0; 0; 1; 1; 1]%nat;
              PSeq [Crashed (Untag 10) 1; Done (Untag 10)];
              PConcCrash [CTag 1 12; CSaveIndex] [0; 1; 0]%nat;
              PConc [CPush 1 [6] false; CSaveIndex] [1; 0; 1; 0; 1; 0]%nat] in
